@@ -1,33 +1,102 @@
 """C17 - failed placements are rolled back completely; accepted ones never move."""
-from gen import jobgen
-from worlds import placement_world
+from simkit.core import Streams, run_seed
+from gen import jobgen, topgen
+from checks import _world_a as wa
 
 PROP = "C17"
 LEVEL = "fault_enumeration"
-RULE = "tbd"
-PROFILE = {"shapes": ["linear", "linear", "star", "comb", "ring", "tree"], "maxres": 8, "max_molecules": 4,
-           "max_count": 2, "n_entries": (1, 2), "box_modes": ["cubic", "noncubic"], "vsites": False,
-           "max_atoms": 2, "faults": ["step", "start", "overlap"], "nrewind": [1, 2, 3, 4, 5],
-           "maxiter": [0, 1, 2], "dilute_hint": True}
+NSYS = {"quick": 6, "thorough": 24}
+LSTEP = {"quick": 8, "thorough": 12}
+MATT = 6
+NSAMPLED = {"quick": 400, "thorough": 60000}
+RULE = ("two modes. ENUMERATED: for each of N fixed systems (quick 6, thorough 24: chains of 3-8, stars, combs, trees, one "
+        "ring; 1-4 molecules; half of them with pre-positioned residues from an earlier build; -nr 1..5, -mi 0..2) ALL "
+        "success/failure tapes in {ok,fail}^L for the first L placement-step decisions (quick L=8: 256, thorough L=12: 4096) "
+        "and ALL tapes in {ok,fail}^6 for whole attempts (an attempt marked fail has every step fail from its half-way point "
+        "until it is abandoned), after which faults stop. SAMPLED: long bursty tapes (step fails, exhausted steps, rejected "
+        "starts, rejected candidates) on larger systems. Invariants at the event where they can first fail: grown-from "
+        "positioned neighbour, positioned generated residues == growth-order prefix, clean state and supplied residues intact "
+        "after every failed attempt, no double add, accepted molecules untouched, final state positioned exactly once, bounded "
+        "progress after the tape ends (dilute boxes). non-trivial = the schedule contains a fault symbol; distinct = distinct "
+        "(schedule signature, event-log digest). Exhaustive over tapes of length L for the chosen systems, not over systems")
+ASSUMPTIONS = wa.ASSUMPTIONS
+REAL_VS_STUB = wa.REAL_VS_STUB
+PROBES = wa.PROBES + ["supplied_and_generated_in_one_system", "enumerated_step_tape", "enumerated_attempt_tape"]
+SYS_PROFILE = {"shapes": ["linear", "linear", "star", "comb", "ring", "tree"], "maxres": 8, "max_molecules": 4,
+               "max_count": 2, "n_entries": (1, 2), "box_modes": ["cubic", "noncubic"], "vsites": False,
+               "max_atoms": 2, "density": 0, "nrewind": [1, 2, 3, 4, 5], "maxiter": [0, 1, 2], "p_mi": 1.0,
+               "p_gs": 0.2, "p_sf": 0.2, "p_mf": 0.0, "p_bf": 0.0, "p_mir": 0.3, "dilute_hint": True}
+SAMPLED_PROFILE = {"shapes": ["linear", "linear", "star", "comb", "ring", "tree"], "maxres": 10, "max_molecules": 6,
+                   "max_count": 3, "n_entries": (1, 3), "box_modes": ["cubic", "noncubic"], "vsites": False,
+                   "max_atoms": 2, "faults": ["step", "start", "overlap"], "nrewind": [1, 2, 3, 4, 5],
+                   "maxiter": [0, 1, 2, 800], "dilute_hint": True}
+_SYS_CACHE = {}
+
+
+def _per(tier):
+    return 2 ** LSTEP[tier] + 2 ** MATT
 
 
 def n_runs(tier):
-    return 400 if tier == "quick" else 50000
+    return NSYS[tier] * _per(tier) + NSAMPLED[tier]
+
+
+def _system(verif_seed, s):
+    key = (verif_seed, s)
+    if key not in _SYS_CACHE:
+        job, st = jobgen.base_job("C17sys", verif_seed, "sys", s, SYS_PROFILE)
+        job["tape"] = {}
+        if s % 2 == 1:
+            jobgen.add_coordinates(job, st.gen, {"coord_modes": ["prefix", "prefix", "res", "res_prefix", "meta_prefix"]})
+        _SYS_CACHE.clear()
+        _SYS_CACHE[key] = job
+    import copy
+    return copy.deepcopy(_SYS_CACHE[key])
 
 
 def gen_job(verif_seed, tier, index):
-    job, st = jobgen.base_job(PROP, verif_seed, tier, index, PROFILE)
+    nenum = NSYS[tier] * _per(tier)
+    if index >= nenum:
+        job, st = jobgen.base_job(PROP, verif_seed, tier, index, SAMPLED_PROFILE)
+        if st.gen.random() < 0.35:
+            jobgen.add_coordinates(job, st.gen, {"coord_modes": ["prefix", "prefix", "res", "res_prefix", "meta_prefix"]})
+        job["mode"] = "sampled"
+        return job
+    s, k = divmod(index, _per(tier))
+    job = _system(verif_seed, s)
+    job["index"] = index
+    job["run_seed"] = run_seed(PROP, verif_seed, s)        # same RNG for all tapes of one system
+    L = LSTEP[tier]
+    if k < 2 ** L:
+        job["tape"] = {"step": [(k >> b) & 1 for b in range(L)]}
+        job["mode"] = "enum_step"
+    else:
+        k -= 2 ** L
+        job["tape"] = {"attempt": [(k >> b) & 1 for b in range(MATT)]}
+        job["mode"] = "enum_attempt"
+    job["system"] = s
     return job
 
 
+def _tag(job, res):
+    if job.get("mode") == "enum_step":
+        res["probes"]["enumerated_step_tape"] = 1
+    elif job.get("mode") == "enum_attempt":
+        res["probes"]["enumerated_attempt_tape"] = 1
+    return wa.has_fault_symbol(res)
+
+
 def run_job(job):
-    res = placement_world.run(job)
-    sig = res["signature"]
-    res["nontrivial"] = any(c in sig for c in "FENRXs")
-    res["ntkey"] = ""
-    res["sample"] = {"molecules": job["spec"]["molecules"], "opts": job["opts"],
-                     "tape": {k: "".join(map(str, v))[:80] for k, v in job["tape"].items()}}
+    res = wa.run_and_tag(job, _tag)
+    res["ntkey"] = res["digest"] if res["nontrivial"] else ""
+    res["sample"]["mode"] = job.get("mode")
     return res
+
+
+def extra_evidence(results, tier):
+    return {"enumerated": {"systems": NSYS[tier], "step_tape_length": LSTEP[tier],
+                           "step_tapes_per_system": 2 ** LSTEP[tier], "attempt_tapes_per_system": 2 ** MATT,
+                           "sampled_runs": NSAMPLED[tier]}}
 
 
 reductions = jobgen.reductions
